@@ -100,7 +100,7 @@ func genEvent(tp *sim.Tape, m *Model, f *Fixture, focus string) Ev {
 			return Ev{Kind: EvStart, Pid: tp.Choose(n, "pid")}
 		case PhSigning:
 			if tp.Choose(5, "errOrSig") == 0 {
-				return Ev{Kind: EvErrSign, Pid: missing(m.Conf | m.Failed)}
+				return Ev{Kind: EvErrSign, Pid: missing(m.Conf | m.Failed), Var: tp.Choose(8, "errText")}
 			}
 			return Ev{Kind: EvPartial, Pid: missing(m.Conf | m.Failed)}
 		}
@@ -124,7 +124,12 @@ func genEvent(tp *sim.Tape, m *Model, f *Fixture, focus string) Ev {
 		if tp.Choose(3, "keyVar?") == 0 {
 			e.Var = 1 + tp.Choose(2, "keyVar")
 		}
+	case EvErrCommit, EvErrDeal, EvErrResponse, EvErrKey:
+		e.Var = tp.Choose(8, "errText")
 	case EvPartial, EvErrSign:
+		if e.Kind == EvErrSign {
+			e.Var = tp.Choose(8, "errText")
+		}
 		if e.Kind == EvPartial {
 			e.Batch = []int{0, 0, 1, 1, 2}[tp.Choose(5, "batchRef")]
 		}
